@@ -15,6 +15,7 @@ from ..world import World, run_world
 
 ID = 'C03'
 LEVEL = 'exploration'
+QUICK_SCALE = 4      # the quick tier was enlarged by this factor after MIN_OBS['quick'] was measured
 RULE = ("kind=matrix (exhaustive): every state x every operation (8 state methods + the 3 public manager calls) x "
         "{upload, download}, the transfer driven into the state through legal operations, downloads with a real "
         "partial file. kind=concurrent: from every state 2-3 operations issued together (gather or staggered by 0-3 "
@@ -67,11 +68,11 @@ def cases(tier: str, seed: int) -> list[dict]:
     for direction in ('DOWNLOAD', 'UPLOAD'):
         for st in states_for(direction):
             out.append({'kind': 'matrix', 'direction': direction, 'state': st, 'seed': seed})
-    n_conc = 3000 if tier == 'quick' else 100000
+    n_conc = 12000 if tier == 'quick' else 100000
     batch = 25
     for i in range(n_conc // batch):
         out.append({'kind': 'concurrent', 'seed': seed, 'i': i, 'n': batch})
-    n_live = 60 if tier == 'quick' else 2000
+    n_live = 240 if tier == 'quick' else 2000
     for i in range(n_live):
         out.append({'kind': 'live', 'seed': seed, 'i': i})
     return out
